@@ -1,4 +1,5 @@
 import PikoModel.Data.AMap
 import PikoModel.Gossip.State
+import PikoModel.Gossip.Net
 import PikoModel.Cluster.State
 import PikoModel.Upstream.LB
